@@ -38,6 +38,9 @@ RULE = (
     "true branch parked, false branch continued, finished path dropped + gc, sibling activated, fresh conditions appended one by one) "
     "and real SEVM explorations of multi-JUMPI programs consumed lazily; id->sexpr monitor over the whole history (IdStable must hold "
     "on the unchanged tree) and cache-on vs cache-off vs z3 after every query; "
+    "(b3) one cache fed by paths that extend_path() different pre-states (different inherited constraints, optional slice, the same "
+    "hash-consed body conditions, second body condition through branch()/activate()): tracked ids == all condition ids and cache-on == "
+    "cache-off == z3 per query; "
     "(c) a directed sweep (shapes of freed/unsat condition x shapes of new condition x number of intervening allocations) for a "
     "*top-level* condition that gets the ast id of a freed one, then the real pipeline is run on each recipe found. "
     "A case is distinct by its text / history digest / recipe."
@@ -510,6 +513,63 @@ def correspond(ctx):
         on.close()
         off.close()
     ctx.extra["path_history"] = {"queries": tot[0], "idstable_breaches": tot[1], "flips": tot[2]}
+
+    # =============================================================== (b3) several pre-states feeding one cache (invariant tests)
+    # One FunctionContext (one unsat-core list) serves paths that extend different frontier states (Path.extend_path), each with its own
+    # inherited constraints; the same hash-consed body condition recurs on top of different pre-states.  Cache-on == cache-off == z3.
+    bx, by = z3.BitVec("p_inv_x_uint256", 256), z3.BitVec("p_inv_y_uint256", 256)
+    for hi in range(ctx.scale(4, 40)):
+        sname = "yices" if hi % 2 else "z3"
+        on, off = Pipeline(eng, True, solver_cmds[sname]), Pipeline(eng, False, solver_cmds[sname])
+        bound = rng.choice([10, 16, 100])
+        inherited_pool = [[z3.ULT(bx, z3.BitVecVal(bound, 256))], [z3.ULT(bx, z3.BitVecVal(bound * 50, 256))], [], [z3.ULT(by, bx)],
+                          [z3.ULT(bx, z3.BitVecVal(bound, 256)), by == bx + 1], [z3.UGT(bx, z3.BitVecVal(3, 256))]]
+        pres = []
+        for k in ([0, 1] if hi == 0 else rng.sample(range(len(inherited_pool)), rng.randrange(2, 5))):
+            pp = Path(mk_solver(eng.base_args))
+            for c in inherited_pool[k]:
+                pp.append(c)
+            if rng.random() < 0.3 and inherited_pool[k]:
+                pp.slice({bx})
+            pres.append(pp)
+        body_pool = [z3.UGT(bx, z3.BitVecVal(bound * 2, 256)), bx == z3.BitVecVal(bound + 5, 256), z3.ULT(bx, by), z3.UGT(by, z3.BitVecVal(7, 256)),
+                     z3.Not(bx == z3.BitVecVal(1, 256)), by == z3.BitVecVal(2, 256)]
+        plan = [(0, [0]), (1, [0])] if hi == 0 else [(rng.randrange(len(pres)), rng.sample(range(len(body_pool)), rng.randrange(1, 3))) for _ in range(rng.randrange(4, 9))]
+        kept, nq = [], 0
+        for pk, bodies in plan:
+            path = Path(mk_solver(eng.base_args))
+            path.extend_path(pres[pk])
+            if len(bodies) > 1 and rng.random() < 0.5:      # second body condition through a real branch()/activate()
+                path.append(body_pool[bodies[0]], branching=True)
+                child = path.branch(body_pool[bodies[1]])
+                child.activate()
+                kept.append(path)
+                path = child
+            else:
+                for b in bodies:
+                    path.append(body_pool[b], branching=True)
+            conds = list(path.conditions)
+            t = truth(conds)
+            v_on, ids, core, new = on.query(path)
+            v_off, _, _, _ = off.query(path)
+            nq += 1
+            kept.append(path)
+            ctx.count(f"pre-states:{sname}:on={v_on}:off={v_off}:truth={t}")
+            want_ids = [str(c.get_id()) for c in conds]
+            if ids != want_ids:
+                ctx.violation("unsat-core-cache:inherited-conditions-not-tracked",
+                              f"with --cache-solver the query of a path extending a pre-state tracks ids {ids} but its conditions are {want_ids} "
+                              f"({len(list(pres[pk].conditions))} inherited): cores cannot name the inherited conditions they depend on",
+                              {"kind": "pre-states", "history": hi})
+            if v_on != v_off or (t in ("sat", "unsat") and v_on in ("sat", "unsat") and v_on != t):
+                ctx.violation("unsat-core-cache:pre-states:verdict-flipped",
+                              f"history {hi} ({sname}): query {nq} on pre-state {pk} (inherited {[str(c)[:50] for c in pres[pk].conditions]}) with body "
+                              f"{[str(body_pool[b])[:50] for b in bodies]}: cache-on {v_on}, cache-off {v_off}, z3 says {t}; cached cores "
+                              f"{on.fctx.solving_ctx.unsat_cores}", {"kind": "pre-states", "history": hi})
+        ctx.case(f"prestates|{hi}|{sname}|{plan}", nontrivial=bool(on.fctx.solving_ctx.unsat_cores))
+        on.close()
+        off.close()
+        del kept, pres
 
     # =============================================================== (c) directed search for a recycled top-level id
     shapesA = {
